@@ -173,6 +173,39 @@ Definition shrink_ops (i : N) : list op :=
    OFs (FWriteAt d (FShrunk i) 0 [T_HDR]); OFs (FSyncFile d (FShrunk i)); OFs (FSyncDir d);
    OFs (FRenameFile d (FShrunk i) (FSnap i)); OFs (FSyncDir d)].
 
+(* ---- the directory name codec (internal/server/snapshotenv.go) ----
+   getDirName = "snapshot-%016X" (index), getTempDirName = "<dirname>-%d.<suffix>"
+   (replica id of the generating replica / sender of the stream, in decimal), and
+   the expressions processOrphans (and tools.cleanupSnapshotDir) recognise them
+   with: `^snapshot-[0-9A-F]Q$`, `^snapshot-[0-9A-F]Q-[0-9A-F]Q\.generating$`, ...
+   where Q is a repetition with bounds (Gen.GenC16).  A number printed in base
+   b <= 16 only uses characters of [0-9A-F]; what is left to check is its length. *)
+Fixpoint ndigits (fuel : nat) (base n : N) : nat :=
+  match fuel with
+  | O => 1
+  | S f => if n <? base then 1%nat else S (ndigits f base (n / base))
+  end.
+
+(* number of characters of n printed in the given base, zero padded to width *)
+Definition printed_len (base width n : N) : N :=
+  N.max width (N.of_nat (ndigits 64 base n)).
+
+Definition part_ok (lo hi base width n : N) : bool :=
+  let l := printed_len base width n in
+  (2 <=? base) && (base <=? 16) && (lo <=? l) && (l <=? hi).
+
+Definition final_name_recognised (idx : N) : bool :=
+  part_ok final_re_idx_min final_re_idx_max 16 name_index_width idx &&
+  part_ok final2_re_idx_min final2_re_idx_max 16 name_index_width idx.
+
+Definition gen_name_recognised (idx id : N) : bool :=
+  part_ok gen_re_idx_min gen_re_idx_max 16 name_index_width idx &&
+  part_ok gen_re_id_min gen_re_id_max tmp_id_base 0 id.
+
+Definition recv_name_recognised (idx id : N) : bool :=
+  part_ok recv_re_idx_min recv_re_idx_max 16 name_index_width idx &&
+  part_ok recv_re_id_min recv_re_id_max tmp_id_base 0 id.
+
 (* ---- processOrphans: a function of the tree and the recorded index ---- *)
 
 Definition is_tmp (d : dname) : bool :=
@@ -206,7 +239,7 @@ Definition po_one (n : dname) (s : state) : option (list op) :=
       end
     else                                             (* isSnapshot *)
       if (st_rec s =? 0) || negb (i =? st_rec s) then Some (rmdir_ops n) else Some []
-  | DGen _ | DRecv _ => Some (rmdir_ops n)           (* isZombie *)
+  | DGen _ | DRecv _ => Some (rmdir_ops n)           (* isZombie: for every id, see temp_names_recognised *)
   | DOther _ => Some []
   end.
 
